@@ -316,6 +316,9 @@ def gen(draw, lens, L, curv, depth):
         return ["index", draw(gen(lens, m, curv, d)), draw(key_for(m, L))]
     if k == "sum":
         m = draw(st.integers(1, 3))
+        if m > 1 and draw(st.booleans()):
+            # vector term plus a scalar term that is broadcast inside the sum
+            return ["sum", ["add", draw(gen(lens, m, curv, d)), draw(gen(lens, 1, curv, d))]]
         return ["sum", draw(gen(lens, m, curv, d))]
     if k == "dot":
         m = draw(st.integers(1, 3))
